@@ -483,7 +483,7 @@ class Report:
         if e is not None:
             self.known_hits.setdefault(e["id"], e["what"])
             return False
-        d = os.path.join(VERIF, "replays", self.prop)
+        d = os.path.join(os.environ.get("VERIF_OUT", VERIF), "replays", self.prop)
         os.makedirs(d, exist_ok=True)
         path = os.path.join(d, f"{self.tier}-{self.seed}-{self.nrep}.json")
         self.nrep += 1
@@ -501,8 +501,9 @@ class Report:
             "coverage": self.cov, "assumptions": self.assumptions,
             "wall_s": round(time.time() - self.t0, 2), "violations": len(self.violations),
         }
-        os.makedirs(os.path.join(VERIF, "evidence"), exist_ok=True)
-        with open(os.path.join(VERIF, "evidence", f"{self.prop}.json"), "w") as fh:
+        evd = os.path.join(os.environ.get("VERIF_OUT", VERIF), "evidence")       # VERIF_OUT: scratch output of seeded-change runs
+        os.makedirs(evd, exist_ok=True)
+        with open(os.path.join(evd, f"{self.prop}.json"), "w") as fh:
             json.dump(ev, fh, indent=1, ensure_ascii=False)
         for fid, what in sorted(self.known_hits.items()):
             print(f"KNOWN-FINDING: property={self.prop} {fid}: {what}")
